@@ -282,6 +282,8 @@ static int ex_search(char **pat)
 	return row >= 0 && row < lbuf_len(xb) ? row : -1;
 }
 
+#define EX_NOADDR	(-2)	/* unset mark or failed search; -1 is address 0 */
+
 static int ex_lineno(char **num)
 {
 	int n = xrow;
@@ -295,12 +297,13 @@ static int ex_lineno(char **num)
 		break;
 	case '\'':
 		if (lbuf_jump(xb, (unsigned char) *++(*num), &n, NULL))
-			return -1;
+			return EX_NOADDR;
 		++*num;
 		break;
 	case '/':
 	case '?':
-		n = ex_search(num);
+		if ((n = ex_search(num)) < 0)
+			return EX_NOADDR;
 		break;
 	default:
 		if (isdigit((unsigned char) **num)) {
@@ -335,7 +338,10 @@ static int ex_region(char *loc, int *beg, int *end)
 	}
 	while (*loc) {
 		int end0 = *end;
-		*end = ex_lineno(&loc) + 1;
+		int n = ex_lineno(&loc);
+		if (n == EX_NOADDR)
+			return 1;
+		*end = n + 1;
 		*beg = naddr++ ? end0 - 1 : *end - 1;
 		if (!naddr++)
 			*beg = *end - 1;
